@@ -104,6 +104,12 @@ package schemabuilder
 // ---- C18: values of the wrong kind are rejected before any resolver runs. Each static scalar parser accepts exactly
 // the JSON kind of its type (numbers arrive as float64 from literals and from variables alike, see graphql.valueToJson)
 // and converts the accepted value itself, nothing else, into the destination.
+// (defect s31: the integer parsers converted any float64 - fractional, negative for an unsigned type, beyond the width -
+// and the resolver received a truncated or wrapped-around value; they now accept exactly the whole numbers their type holds)
+//@ func checkInteger
+//@   assigns nothing
+//@   ensures result == nil ==> isint(f) && min <= f && f < limit
+//@   ensures isint(f) && min <= f && f < limit ==> result == nil
 //@ func init$1
 //@   ensures err == nil ==> (value is bool)
 //@ func init$2
@@ -112,24 +118,44 @@ package schemabuilder
 //@   ensures err == nil ==> (value is float64)
 //@ func init$4
 //@   ensures err == nil ==> (value is float64)
+//@   call checkInteger assert arg0 == asFloat
+//@   ensures err == nil ==> isint(value.(float64)) && toreal(0 - 9223372036854775808) <= value.(float64) && value.(float64) < toreal(9223372036854775808)
 //@ func init$5
 //@   ensures err == nil ==> (value is float64)
+//@   call checkInteger assert arg0 == asFloat
+//@   ensures err == nil ==> isint(value.(float64)) && toreal(0 - 2147483648) <= value.(float64) && value.(float64) < toreal(2147483648)
 //@ func init$6
 //@   ensures err == nil ==> (value is float64)
+//@   call checkInteger assert arg0 == asFloat
+//@   ensures err == nil ==> isint(value.(float64)) && toreal(0 - 32768) <= value.(float64) && value.(float64) < toreal(32768)
 //@ func init$7
 //@   ensures err == nil ==> (value is float64)
+//@   call checkInteger assert arg0 == asFloat
+//@   ensures err == nil ==> isint(value.(float64)) && toreal(0 - 128) <= value.(float64) && value.(float64) < toreal(128)
 //@ func init$8
 //@   ensures err == nil ==> (value is float64)
+//@   call checkInteger assert arg0 == asFloat
+//@   ensures err == nil ==> isint(value.(float64))
 //@ func init$9
 //@   ensures err == nil ==> (value is float64)
+//@   call checkInteger assert arg0 == asFloat
+//@   ensures err == nil ==> isint(value.(float64)) && toreal(0) <= value.(float64) && value.(float64) < toreal(18446744073709551616)
 //@ func init$10
 //@   ensures err == nil ==> (value is float64)
+//@   call checkInteger assert arg0 == asFloat
+//@   ensures err == nil ==> isint(value.(float64)) && toreal(0) <= value.(float64) && value.(float64) < toreal(4294967296)
 //@ func init$11
 //@   ensures err == nil ==> (value is float64)
+//@   call checkInteger assert arg0 == asFloat
+//@   ensures err == nil ==> isint(value.(float64)) && toreal(0) <= value.(float64) && value.(float64) < toreal(65536)
 //@ func init$12
 //@   ensures err == nil ==> (value is float64)
+//@   call checkInteger assert arg0 == asFloat
+//@   ensures err == nil ==> isint(value.(float64)) && toreal(0) <= value.(float64) && value.(float64) < toreal(256)
 //@ func init$13
 //@   ensures err == nil ==> (value is float64)
+//@   call checkInteger assert arg0 == asFloat
+//@   ensures err == nil ==> isint(value.(float64))
 //@ func init$14
 //@   ensures err == nil ==> (value is string)
 //@ func init$15
